@@ -37,6 +37,8 @@ def value(kind, serial):
 
 
 def tag(kind, v):
+    if isinstance(v, (list, tuple)) and v:
+        v = v[0]               # a per-input list (PMux rs): identified by its first entry
     return "%s:%r" % (kind, float(v))
 
 
@@ -74,7 +76,7 @@ def mk(c):
     if k == "pswitch":
         return PSwitch(n, rs=v, **kw)
     if k == "pmux":
-        return PMux(n, rs=v, **kw)
+        return PMux(n, rs=([v] * int(c["rs_list"]) if c.get("rs_list") else v), **kw)
     if k == "rectifier":
         return Rectifier(n, rs=v, **kw)
     raise ValueError(k)
